@@ -12,7 +12,7 @@ ASSUMPTIONS = ["for a task awaited by two parents nothing is asserted about whic
 
 
 def strat_async(tier):
-    return gen.programs(gen.Cfg(max_tasks=12 if tier == "quick" else 40, sync=True, ctx=("rec", "rec", "ov"), dag=True, convs=("call", "value", "wrapper"),
+    return gen.programs(gen.Cfg(max_tasks=12 if tier == "quick" else 40, sync=True, ctx=("rec", "rec", "ov"), dag=True, tools=("agen", "agen", "cwc", "dd", "alru", "amap"), convs=("call", "value", "wrapper"),
                                 shapes=("ctxcomb", "ctxcomb", "chain", "tree", "comb", "stagger", "reentry", "reentry", "diamond", "free", "free")))
 
 
@@ -27,7 +27,7 @@ def check_async(prog, ctx):
     viol += oracles.alternation(env)
     ctx.label("ctx>=2", len(env.ctxs) >= 2)
     ctx.label(">=2-tasks-in-ctx-across-flush", env.ctx_span_flush > 0)
-    ctx.label("ctx-events>2", any(len(c.ev) > 2 for c in env.ctxs.values()))
+    ctx.label("ctx-events>2", any(len(c.ev) > 3 for c in env.ctxs.values()))
     ctx.label("sync-reentry", not env.yield_only)
     ctx.label("outcome=" + env.outcome[0])
     ctx.label("shape=" + prog.get("shape", "?"))
